@@ -732,6 +732,24 @@ fn unordered_collections(c: &mut Ctx, b: &Budget) {
         c.check("dcbor-set-deterministic", digests_dset.len() == 1, "dcbor-set-order", || format!("{} digests", digests_dset.len()));
         c.check("dcbor-map-deterministic", digests_dmap.len() == 1, "dcbor-map-order", || format!("{} digests", digests_dmap.len()));
         c.check("hashset-deterministic", digests_set.len() == 1, "hashset-order", || format!("{} different digests for one HashSet with elements {:?}", digests_set.len(), items));
+        // sets nested inside another collection (element of a Vec, value of a HashMap) never reach the crate's own HashSet impl: the
+        // outer conversion hands every element to dcbor, whose HashSet -> CBOR conversion keeps the hasher's order
+        if items.iter().collect::<HashSet<_>>().len() >= 3 {
+            let mut nested = HashSet::new(); let mut as_value = HashSet::new();
+            for _ in 0..8 {
+                let hs: HashSet<u64> = items.iter().cloned().collect();
+                nested.insert(Envelope::new(vec![hs.clone()]).digest().into_owned());
+                let mut hm: HashMap<String, HashSet<u64>> = HashMap::new(); hm.insert("k".into(), hs);
+                as_value.insert(Envelope::new(hm).digest().into_owned());
+            }
+            c.check("nested-hashset-deterministic", nested.len() == 1 && as_value.len() == 1, "nested-hashset-order", || format!("Vec<HashSet<u64>> / HashMap<String, HashSet<u64>> over {:?} built 8 times gave {} / {} different digests", items, nested.len(), as_value.len()));
+        }
+        // two keys that are different Rust strings and one dCBOR text (NFC and NFD spellings): one entry survives, which one is the hasher's choice
+        {
+            let mut ds = HashSet::new();
+            for _ in 0..16 { let mut m: HashMap<String, i32> = HashMap::new(); m.insert("\u{e9}".into(), 1); m.insert("e\u{301}".into(), 2); ds.insert(Envelope::new(m).digest().into_owned()); }
+            c.check("colliding-keys-deterministic", ds.len() == 1, "hashmap-colliding-keys", || format!("HashMap {{\"\\u{{e9}}\": 1, \"e\\u{{301}}\": 2}} built 16 times gave {} different digests", ds.len()));
+        }
         c.end();
     }
     // the same through the scenario language, so that the model (which inserts into the sorted map in the order given) is compared:
